@@ -106,7 +106,7 @@ Theorem C19_nu_overwritten_refuted :
   forall (P N D M : Type) (nu_of : P -> D -> N) (train : P -> N -> D -> M) (p : P) (d : D),
     exists h : list (op D),
       e_params (run (eg_step nu_of train) (e_init p None) h) <> e_params (@e_init P N M p None).
-Proof. intros P N D M nu_of train p d. exists [Fit d]. exact (e_nu_overwritten P N D M nu_of train p d). Qed.
+Proof. exact e_nu_overwritten_ex. Qed.
 Print Assumptions C19_nu_overwritten_refuted.
 
 (* ... and with it the fitted model becomes history dependent as soon as training depends on nu *)
@@ -114,7 +114,7 @@ Theorem C19_ExponentiatedGradient_model_refuted :
   exists (h : list (op Z)) (d : Z),
     o_model (after (eg_step sym_nu_of sym_train_eg) (e_init 0 None) h (Fit d)) <>
     o_model (after (eg_step sym_nu_of sym_train_eg) (e_init 0 None) [] (Fit d)).
-Proof. exists [Fit 1], 2. exact e_model_history_dependent. Qed.
+Proof. exact e_model_history_dependent_ex. Qed.
 Print Assumptions C19_ExponentiatedGradient_model_refuted.
 
 (* ------------------------------------------------------------------ get_params never changes,
@@ -147,7 +147,7 @@ Theorem C19_params_constant_CorrelationRemover :
   forall (P D M : Type) (width : D -> Z) (train : P -> D -> M) (p : P) (w : Z) (h : list (op D)),
     Forall (fun o => o_params o = p) (trace (c_step width train) (c_init p) h) /\
     (Forall (same_width width w) h -> Forall quiet (trace (c_step width train) (c_init p) h)).
-Proof. intros P D M width train p w h. split; [apply c_params_constant | apply c_quiet]. Qed.
+Proof. exact c_params_constant_quiet. Qed.
 Print Assumptions C19_params_constant_CorrelationRemover.
 
 Theorem C19_params_constant_Adversarial :
@@ -178,19 +178,7 @@ Theorem C19_predict_pure :
         fst (adv_step ws init_net train_from s Predict) = s /\
         snd (adv_step ws init_net train_from (fst (adv_step ws init_net train_from s Predict)) Predict)
           = snd (adv_step ws init_net train_from s Predict)).
-Proof.
-  intros P N D M. repeat split.
-  - apply s_predict_pure.
-  - apply s_predict_pure.
-  - apply g_predict_pure.
-  - apply g_predict_pure.
-  - apply e_predict_pure.
-  - apply e_predict_pure.
-  - apply c_predict_pure.
-  - apply c_predict_pure.
-  - apply a_predict_pure.
-  - apply a_predict_pure.
-Qed.
+Proof. exact all_predict_pure. Qed.
 Print Assumptions C19_predict_pure.
 
 (* ------------------------------------------------------------------ pickle_faithful
@@ -207,9 +195,7 @@ Theorem C19_pickle_faithful :
     (forall (width : D -> Z) (train : P -> D -> M) s,
         fst (c_step width train s Pickle) = s /\
         snd (c_step width train s Pickle) = mkObs true (c_par s) (c_fit s) None).
-Proof.
-  intros P N D M. repeat split.
-Qed.
+Proof. exact all_pickle_faithful. Qed.
 Print Assumptions C19_pickle_faithful.
 
 (* ------------------------------------------------------------------ clone_fresh: the clone has
@@ -229,13 +215,7 @@ Theorem C19_clone_fresh :
     (forall (ws : P -> bool) (init_net : P -> D -> M) (train_from : P -> M -> D -> M) s,
         fst (adv_step ws init_net train_from s Clone) = a_init (a_par s) /\
         snd (adv_step ws init_net train_from s Clone) = mkObs true (a_par s) None None).
-Proof.
-  intros P D M. split; [|split; [|split]].
-  - intros train s. apply s_clone_fresh.
-  - intros train s. apply g_clone_fresh.
-  - intros width train s. apply c_clone_fresh.
-  - intros ws init_net train_from s. apply a_clone_fresh.
-Qed.
+Proof. exact all_clone_fresh. Qed.
 Print Assumptions C19_clone_fresh.
 
 (* ExponentiatedGradient: the clone is unfitted and carries the CURRENT get_params -- i.e. the
